@@ -774,6 +774,12 @@ orc_x86_insn_output_asm (OrcCompiler *p, OrcX86Insn *xinsn)
     /* AT&T order: the blend mask (is4 operand) comes first */
     ORC_ASM_CODE(p,"  v%s %s%s%s%s%s\n", xinsn->opcode->name,
         imm_str, src_3rd_op, src_op, src_2nd_op, dst_op);
+  } else if (xinsn->size == 8 && xinsn->type != ORC_X86_RM_REG &&
+      (xinsn->opcode->type == ORC_X86_INSN_TYPE_IMM8_REGM ||
+       xinsn->opcode->type == ORC_X86_INSN_TYPE_IMM32_REGM)) {
+    /* immediate to memory: the operand size is not implied by a register */
+    ORC_ASM_CODE(p,"  %sq %s%s%s\n", xinsn->opcode->name,
+        imm_str, src_op, dst_op);
   } else {
     ORC_ASM_CODE(p,"  %s %s%s%s\n", xinsn->opcode->name,
         imm_str, src_op, dst_op);
